@@ -1,9 +1,6 @@
 CONSTANTS
   MaxLabel = 63
   MaxName = 255
-  MaxLen = 4
-  MaxFaults = 2
-  EmitChains = FALSE
   Mac <- MacModel
 INIT Init
 NEXT Next
